@@ -394,7 +394,9 @@ def main(argv):
     lock_path = os.path.join(VERIF, 'locks', '%s.%s.json' % (a.prop, a.tier))
     cur_ids = sorted(set(o['id'] for o in all_obs))
     if a.relock:
-        if not failed and not undecided:
+        # obligations that fail only on inputs recorded in known_findings.json are still generated obligations of the reference tree
+        _kf = set(f['obligation'] for f in load_known()['findings'] if f['property'] == a.prop)
+        if not [o for o in failed if o not in _kf] and not undecided:
             os.makedirs(os.path.join(VERIF, 'locks'), exist_ok=True)
             with open(lock_path, 'w') as f:
                 json.dump({'property': a.prop, 'tier': a.tier, 'obligations': cur_ids}, f, indent=1)
